@@ -592,7 +592,14 @@ func (p *parser) list() Expr {
 		kind = k
 		p.next()
 		names = append(names, t.Text)
-		vals = append(vals, p.expr200())
+		if k == "::=" {
+			// `f ::= v` is declared at level 60 (goose_lang/struct): its right operand is read at level 59, so a
+			// comparison (level 70), a store or a sequence as the value needs its own parentheses; let:/if:/λ:
+			// (level 200) are always printed parenthesised
+			vals = append(vals, p.level(59))
+		} else {
+			vals = append(vals, p.expr200())
+		}
 		if p.isSym(";") {
 			p.next()
 			continue
